@@ -42,6 +42,14 @@ access(all) struct S: I {
   access(E1) fun g(): Int { return 2 }
 }
 access(all) struct Inner { access(E2) fun h(): Int { return 3 } init() {} }
+access(all) struct Item { access(all) var n: Int; init() { self.n = 0 } access(E1) fun bump() { self.n = self.n + 1 } }
+access(all) struct Box {
+  // container-typed fields: their type objects are shared by every program importing this contract
+  access(all) let items: {String: auth(E1) &Item}
+  access(all) let list: [auth(E1) &Item]
+  access(all) let nested: {Int: [Int]}
+  init() { self.items = {}; self.list = []; self.nested = {} }
+}
 access(all) resource R { access(all) let id: Int; init(_ i: Int) { self.id = i } }
 access(all) enum Color: UInt8 { access(all) case red; access(all) case green }
 access(all) fun mkR(_ i: Int): @R { return <- create R(i) }
@@ -51,10 +59,11 @@ access(all) fun mkR(_ i: Int): @R { return <- create R(i) }
 func genProgram(r *rand.Rand, allowErrors bool) string {
 	var sb strings.Builder
 	sb.WriteString("import Sh from 0x1\n")
+	sb.WriteString("access(all) fun bo_keys(_ b: Sh.Box) { b.items.forEachKey(fun (k: String): Bool { return true }) }\n")
 	sb.WriteString("access(all) fun main(): Int {\n  var t = 0\n")
 	n := 3 + r.Intn(8)
 	for i := 0; i < n; i++ {
-		k := r.Intn(7)
+		k := []int{0, 1, 2, 3, 4, 5, 6, 9, 10, 11, 12}[r.Intn(11)]
 		if allowErrors && r.Intn(16) == 0 {
 			k = 7 + r.Intn(2)
 		}
@@ -73,6 +82,16 @@ func genProgram(r *rand.Rand, allowErrors bool) string {
 			fmt.Fprintf(&sb, "  let u%d: UInt8 = 200; t = t + Int(u%d.saturatingAdd(100)) + Int(Int128(%d) * 3)\n", i, i, i)
 		case 6:
 			fmt.Fprintf(&sb, "  t = t + \"abc\".length + [1,2,3].length + {1: 2}.keys.length; log(Type<auth(Sh.E1, Sh.E2) &{Sh.I}>().identifier)\n")
+		case 9:
+			// container fields reached through an (authorized) reference
+			fmt.Fprintf(&sb, "  let bx%d = Sh.Box(); let br%d = &bx%d as auth(Sh.E1) &Sh.Box; t = t + br%d.items.length + br%d.list.length + br%d.nested.length\n", i, i, i, i, i, i)
+		case 10:
+			// the same container fields used on an owned value: insert / remove / forEachKey keep the element authorization
+			fmt.Fprintf(&sb, "  let it%d = Sh.Item(); let bo%d = Sh.Box(); bo%d.items.insert(key: \"a\", &it%d as auth(Sh.E1) &Sh.Item); let ir%d = bo%d.items.remove(key: \"a\")!; ir%d.bump(); t = t + ir%d.n\n", i, i, i, i, i, i, i, i)
+		case 11:
+			fmt.Fprintf(&sb, "  let ia%d = Sh.Item(); let ba%d = Sh.Box(); ba%d.list.append(&ia%d as auth(Sh.E1) &Sh.Item); let ar%d = ba%d.list.removeFirst(); ar%d.bump(); t = t + ar%d.n; bo_keys(ba%d)\n", i, i, i, i, i, i, i, i, i)
+		case 12:
+			fmt.Fprintf(&sb, "  let bn%d = Sh.Box(); let nr%d = &bn%d as &Sh.Box; t = t + nr%d.nested.keys.length; bn%d.nested.forEachKey(fun (k: Int): Bool { return true })\n", i, i, i, i, i)
 		case 7:
 			fmt.Fprintf(&sb, "  let bad%d: String = 1\n", i)
 		case 8:
@@ -163,6 +182,21 @@ func main() {
 	if err := sc.Check(); err != nil {
 		util.Die("shared check: %v", err)
 	}
+	freshShared := func() *sema.Elaboration {
+		prog, err := parser.ParseProgram(nil, []byte(shared), parser.Config{})
+		if err != nil {
+			util.Die("shared: %v", err)
+		}
+		c, err := sema.NewChecker(prog, common.AddressLocation{Address: common.MustBytesToAddress([]byte{1}), Name: "Sh"}, nil,
+			&sema.Config{AccessCheckMode: sema.AccessCheckModeStrict})
+		if err != nil {
+			util.Die("shared: %v", err)
+		}
+		if err := c.Check(); err != nil {
+			util.Die("shared check: %v", err)
+		}
+		return c.Elaboration
+	}
 	var progs []string
 	for i := 0; i < nprog; i++ {
 		progs = append(progs, genProgram(r, true))
@@ -185,7 +219,8 @@ func main() {
 	wg.Wait()
 	ndiff, accepted := 0, 0
 	for i, p := range progs {
-		seq := checkOne(p, sc.Elaboration)
+		// reference: the program checked alone, against a freshly checked copy of the shared contract
+		seq := checkOne(p, freshShared())
 		if seq == "OK" {
 			accepted++
 		}
